@@ -28,7 +28,9 @@
 (*                     current parameter.                                  *)
 (* Deviation (must violate Isolation, not a finding):                      *)
 (*   "HandsOutOwn"   - Bath.correlations hands out the bath's own object   *)
-(*                     instead of a copy.                                  *)
+(*                     instead of a copy;                                  *)
+(*   "SharedMemo"    - all copies of a correlations object share one memo  *)
+(*                     table that ignores the parameters.                  *)
 (***************************************************************************)
 EXTENDS Naturals, Sequences, FiniteSets, Json, TLC
 
@@ -38,6 +40,7 @@ CONSTANTS Versions,   \* e.g. 1..2
           UseKinds,   \* kinds of computations that may (re)use the shared system / bath / parameters /
                       \* process-tensor objects
           Devs,
+          Ops,
           Emit
 
 VARIABLES ver,        \* current parameter version of c
@@ -80,9 +83,12 @@ Eta(a) ==
     /\ UNCHANGED <<ver, bath, memoB>>
 
 \* b = Bath(op, c)
+\* (a bath may be built again later, e.g. at every point of a parameter sweep: the new one replaces the old)
 BuildBath ==
-    /\ NOps < MaxOps /\ bath = 0
-    /\ bath' = ver
+    /\ NOps < MaxOps /\ (bath = 0 \/ bath # ver)
+    /\ bath' = IF "SharedMemo" \in Devs /\ bath # 0 THEN bath ELSE ver     \* SharedMemo: the copies share one memo, the first
+                                                                         \* bath's values answer for every later bath
+
     /\ memoB' = [a \in Args |-> 0]        \* the copy is a new object for the memo table
     /\ hist' = Append(hist, Obs("bath", 0, ver))
     /\ UNCHANGED <<ver, memoC>>
@@ -126,7 +132,15 @@ Use(k) ==
     /\ UNCHANGED <<ver, memoC, bath, memoB>>
 NextUse == \E k \in UseKinds : Use(k)
 
-Next == (\E v \in Versions : SetParam(v) \/ SetViaBath(v)) \/ Corr \/ (\E a \in Args : Eta(a)) \/ BuildBath \/ BathAttr \/ BathCorr \/ Compute
+\* Ops: the operations enabled in a configuration (all of them, or e.g. {"set", "bath", "compute"} for long parameter sweeps)
+Next == \/ ("set" \in Ops /\ \E v \in Versions : SetParam(v))
+        \/ ("setb" \in Ops /\ \E v \in Versions : SetViaBath(v))
+        \/ ("corr" \in Ops /\ Corr)
+        \/ ("eta" \in Ops /\ \E a \in Args : Eta(a))
+        \/ ("bath" \in Ops /\ BuildBath)
+        \/ ("battr" \in Ops /\ BathAttr)
+        \/ ("bcorr" \in Ops /\ BathCorr)
+        \/ ("compute" \in Ops /\ Compute)
 Spec == Init /\ [][Next]_vars
 
 (***************************************************************************)
@@ -135,11 +149,12 @@ Spec == Init /\ [][Next]_vars
 \* version of c in force when operation i was performed
 VerAt(i) == LET S == { j \in 1..i : hist[j].op = "set" } IN
             IF S = {} THEN 1 ELSE hist[CHOOSE j \in S : \A l \in S : l <= j].obs
-BathVer == LET S == { j \in 1..Len(hist) : hist[j].op = "bath" } IN
-           IF S = {} THEN 0 ELSE hist[CHOOSE j \in S : TRUE].obs
+\* version the bath in force at operation i was built with (the latest "bath" operation before i)
+BathVerAt(i) == LET S == { j \in 1..i : hist[j].op = "bath" } IN
+                IF S = {} THEN 0 ELSE hist[CHOOSE j \in S : \A l2 \in S : l2 <= j].obs
 
 Freshness == \A i \in 1..Len(hist) : hist[i].op \in {"corr", "eta"} => hist[i].obs = VerAt(i)
-Isolation == \A i \in 1..Len(hist) : hist[i].op \in {"battr", "bcorr", "compute"} => hist[i].obs = BathVer
+Isolation == \A i \in 1..Len(hist) : hist[i].op \in {"battr", "bcorr", "compute"} => hist[i].obs = BathVerAt(i)
 
 ReuseFresh == \A i \in 1..Len(hist) : hist[i].op = "use" => hist[i].obs = 0
 
